@@ -15,6 +15,8 @@ func init() { register("C16", checkC16) }
 
 func checkC16(c *Ctx) {
 	r := c.R
+	r.Rule("R11.3", "(shared with C11) the zone and layout in force are the emitting logger's own: setentry copies them from that logger on every path, never from its owner")
+	r.Rule("R10.4", "(shared with C10) a With-form's child is its own logger: anonymous, or named by a term over every argument (WithUTCMode(true) and WithUTCMode(false) never return the same child)")
 	r.Rule("R10.3", "(shared with C10) a layout or zone given as a New(...) option is applied whatever its position: every element of the argument list is offered to the option test")
 	r.Rule("R10.2", "(shared with C10) the layout in force is the logger's own: each With-form applies its setting to the new child and leaves the receiver alone")
 	r.Rule("R16.1", "zone decision: the decision function extracted from appendTimestamp formats z.UTC() exactly when utcTime == 2 or (utcTime == 0 and the LlocalTime flag is off), and z itself otherwise; SetUTCMode stores 2 for no argument/true and 1 for false")
@@ -41,6 +43,8 @@ func checkC16(c *Ctx) {
 		c09Pooled(c, p, m, "R16.4", feasibleModes)
 		c10WithSet(c, p, m)
 		optionsInOrder(c, p, "R10.3")
+		c11Encoder(c, p, m)
+		freshChildren(c, p, m, "R10.4", nil)
 	}
 	c.Floor["R16.1"] = 6
 	c.Floor["R16.2"] = 6
